@@ -48,6 +48,7 @@
 #endif
 
 #include "archive.h"
+#include "archive_private.h"
 
 struct write_fd_data {
 	int		fd;
@@ -62,6 +63,8 @@ archive_write_open_fd(struct archive *a, int fd)
 {
 	struct write_fd_data *mine;
 
+	archive_check_magic(a, ARCHIVE_WRITE_MAGIC, ARCHIVE_STATE_NEW,
+	    "archive_write_open_fd");
 	mine = malloc(sizeof(*mine));
 	if (mine == NULL) {
 		archive_set_error(a, ENOMEM, "No memory");
